@@ -306,11 +306,16 @@ def check_case(root, spec, pp, cfg, out, armed):
         try:
             with util.watchdog(10):
                 got_f = G.globfilter(lc, text, flags=fl | G.REALPATH, root_dir=root)
-                got_c = G.compile(text, flags=fl | G.REALPATH).filter(lc, root_dir=root)
+                cm_ = G.compile(text, flags=fl | G.REALPATH)
+                got_c = cm_.filter(lc, root_dir=root)
+                # ... and a matcher that went through pickle / deepcopy still knows which of its globstars may pass through links
+                import pickle as _pk, copy as _cp
+                got_p = _pk.loads(_pk.dumps(cm_)).filter(lc, root_dir=root)
+                got_d = _cp.deepcopy(cm_).filter(lc, root_dir=root)
         except util.HarnessBudget:
-            got_f = got_c = want_f
-        out.evaluations += 2
-        for label, g_ in (('globfilter', got_f), ('compile().filter', got_c)):
+            got_f = got_c = got_p = got_d = want_f
+        out.evaluations += 4
+        for label, g_ in (('globfilter', got_f), ('compile().filter', got_c), ('pickled compile().filter', got_p), ('deep-copied compile().filter', got_d)):
             if list(g_) != want_f:
                 d_ = sorted(set(g_) ^ set(want_f))[0]
                 out.violation(dict(case, problem='%s(REALPATH) keeps other paths through symlinked directories than globmatch accepts one by one' % label,
